@@ -337,7 +337,66 @@ def vdw_k(rng, ctx):
     return rng.choice([1, 1, 2, 2, 3, 3, 4, 5, 9, 0, -1])
 
 
+def wrap_lit(rng, ctx):
+    nv = ctx.get("nv", 0)
+    v = rng.randint(nv - 1, nv + ctx.get("nedges", 0) + 2)
+    return v if rng.random() < 0.6 else -v
+
+
+def wrap_index(rng, ctx):
+    es = ctx.get("edges", [])
+    n = ctx.get("n", 0)
+    x = rng.random()
+    if x < 0.7 and es:
+        e = list(rng.choice(es))
+        return e if rng.random() < 0.5 else e[::-1]
+    if x < 0.8:
+        return [gen_int(rng) for _ in range(rng.choice([0, 1, 3]))]
+    return [rng.randint(0, n + 1), rng.randint(0, n + 1)]
+
+
+def wrap_pattern(rng, ctx):
+    es = ctx.get("edges", [])
+    n = ctx.get("n", 0)
+    x = rng.random()
+    if x < 0.15:
+        return []
+    if x < 0.25:
+        return [gen_value(rng, {"k": "opt", "e": {"k": "int"}}) for _ in range(rng.choice([1, 3]))]
+    if x < 0.6 and es:
+        u, v = rng.choice(es)
+        if rng.random() < 0.5:
+            u, v = v, u
+        return [u if rng.random() < 0.7 else None, v if rng.random() < 0.7 else None]
+    return [None if rng.random() < 0.3 else rng.randint(-1, n + 1), None if rng.random() < 0.3 else rng.randint(-1, n + 1)]
+
+
+def unary_vertex(rng, ctx):
+    l, r, es = ctx.get("G", (0, 0, []))
+    return None if rng.random() < 0.3 else rng.randint(-1, max(l, r) + 1)
+
+
+def single_lit(rng, ctx):
+    nv = ctx.get("formula", 0)
+    v = rng.choice([nv, nv + 1, nv + 1, nv + 2, 0, gen_int(rng)])
+    return v if rng.random() < 0.6 else -v
+
+
 HINTS = {
+    ("DiGraphEdgesVariables", "lit"): wrap_lit,
+    ("DiGraphEdgesVariables", "index"): wrap_index,
+    ("DiGraphEdgesVariables", "pattern"): wrap_pattern,
+    ("GraphEdgesVariables", "lit"): wrap_lit,
+    ("GraphEdgesVariables", "index"): wrap_index,
+    ("UnaryMappingVariables", "lit"): bip_lit,
+    ("UnaryMappingVariables", "pattern"): bip_pattern,
+    ("UnaryMappingVariables", "index"): bip_pattern,
+    ("UnaryMappingVariables:_unsafe_index_to_lit", "index"): bip_index,
+    ("UnaryMappingVariables", "v"): unary_vertex,
+    ("UnaryMappingVariables", "u"): unary_vertex,
+    ("SingletonVariableGroup", "lit"): single_lit,
+    ("SingletonVariableGroup", "pattern"): lambda rng, ctx: [] if rng.random() < 0.7 else [None],
+    ("SingletonVariableGroup", "choices"): lambda rng, ctx: rng.choice([0, 0, -1, 1, -2, 5]),
     ("normalize_opb", "constraint"): opb_constraint,
     ("_vdw_ap_generator", "N"): vdw_N,
     ("_vdw_ap_generator", "k"): vdw_k,
@@ -465,6 +524,9 @@ ORACLES = {
     "BlockOfVariables.to_index": _group_roundtrip_to_index,
     "BinaryMappingVariables.to_index": _group_roundtrip_to_index,
     "BipartiteEdgesVariables.to_index": _group_roundtrip_to_index,
+    "UnaryMappingVariables.to_index": _group_roundtrip_to_index,
+    "DiGraphEdgesVariables.to_index": _group_roundtrip_to_index,
+    "GraphEdgesVariables.to_index": _group_roundtrip_to_index,
     "BlockOfVariables.index_to_lit": _group_roundtrip_index,
     "BinaryMappingVariables.index_to_lit": _group_roundtrip_index,
     "BipartiteEdgesVariables.index_to_lit": _group_roundtrip_index,
@@ -472,6 +534,55 @@ ORACLES = {
     "vdw_ap_generator": _vdw_spec,
     "normalize_opb": _normalize_spec,
 }
+
+def _rand_digraph(rng):
+    n = rng.choice([0, 1, 2, 3, 4])
+    pairs = [(u, v) for u in range(1, n + 1) for v in range(1, n + 1) if u != v]
+    rng.shuffle(pairs)
+    return n, pairs[:rng.randint(0, len(pairs))]
+
+
+def _bip_fields(vg, nv):
+    """(encoded constructor arguments of the BipartiteEdgesVariables `vg` for the driver)"""
+    B = vg.G
+    es = list(B.edges())
+    return [nv, B.left_order(), B.right_order(), len(es)] + [x for e in es for x in e] + [0]
+
+
+def _adapt_digraph(rng):
+    from cnfgen.graphs import DirectedGraph
+    from cnfgen.formula.variables import DiGraphEdgesVariables
+    nv = rng.choice([0, 2, 9])
+    n, es = _rand_digraph(rng)
+    sortby = rng.choice(["pred", "succ"])
+
+    def build():
+        D = DirectedGraph(n)
+        for u, v in es:
+            D.add_edge(u, v)
+        return DiGraphEdgesVariables(_formula(nv), D, sortby=sortby)
+    obj = build()
+    ctx = {"nv": nv, "edges": list(obj.VG.G.edges()), "n": n, "nedges": len(es)}
+    return build, [len(sortby)] + [ord(c) for c in sortby] + _bip_fields(obj.VG, nv), ctx
+
+
+def _adapt_graph(rng):
+    from cnfgen.graphs import Graph
+    from cnfgen.formula.variables import GraphEdgesVariables
+    nv = rng.choice([0, 2, 9])
+    n, es = _rand_digraph(rng)
+
+    def build():
+        G = Graph(n)
+        for u, v in es:
+            G.add_edge(u, v)
+        return GraphEdgesVariables(_formula(nv), G)
+    obj = build()
+    ctx = {"nv": nv, "edges": list(obj.BG.G.edges()), "n": n, "nedges": obj.BG.G.number_of_edges()}
+    return build, _bip_fields(obj.BG, nv), ctx
+
+
+FIELD_ADAPTERS = {"DiGraphEdgesVariables": _adapt_digraph, "GraphEdgesVariables": _adapt_graph}
 
 OMIT = object()
 
@@ -525,11 +636,16 @@ def make_call(rng, fn, manifest):
     init = manifest["classes"][cls]["init"] if cls else None
     init_real = init_enc = None
     init_obs = []
+    adapter = None
     if cls and not fn["is_init"]:
         if init is None:
-            return None
-        init_real, init_enc = args_for(init["params"], cls, "__init__")
-        init_obs = init["observers"]
+            if cls not in FIELD_ADAPTERS:
+                return None
+            adapter = FIELD_ADAPTERS[cls](rng)
+            ctx.update(adapter[2])
+        else:
+            init_real, init_enc = args_for(init["params"], cls, "__init__")
+            init_obs = init["observers"]
     real, enc = args_for(fn["params"], cls or fn["py"], fn["py"])
     obs = fn["observers"]
 
@@ -551,7 +667,7 @@ def make_call(rng, fn, manifest):
         if fn["is_init"]:
             obj = C(*strip_omitted(real))
             return "OK " + canon_obj(obj, cls, manifest)
-        obj = C(*strip_omitted(init_real))
+        obj = adapter[0]() if adapter is not None else C(*strip_omitted(init_real))
         m = getattr(obj, fn["py"])
         r = m(*real[0]) if fn["vararg"] else m(*strip_omitted(real))
         if fn["ret"]["k"] == "obj":
@@ -560,6 +676,8 @@ def make_call(rng, fn, manifest):
 
     def request():
         toks = [fn["index"]]
+        if adapter is not None:
+            toks += adapter[1]
         if init_enc is not None:
             for ty, v in init_enc:
                 toks += encode(v, ty)
@@ -578,7 +696,7 @@ def make_call(rng, fn, manifest):
             obj = None
             if cls is not None and not fn["is_init"]:
                 try:
-                    obj = getattr(mod, cls)(*strip_omitted(init_real))
+                    obj = adapter[0]() if adapter is not None else getattr(mod, cls)(*strip_omitted(init_real))
                 except Exception:
                     return None
             a = copy.deepcopy(real[0] if fn["vararg"] else strip_omitted(real))
